@@ -16,6 +16,7 @@ package h2a
 
 import (
 	"fmt"
+	"os"
 	"strings"
 	"testing"
 
@@ -538,6 +539,14 @@ func c34Run(rt *rapid.T, rec *ev.Rec) {
 	}
 	if inconclusive != "" {
 		rec.Excluded("inconclusive-" + inconclusive)
+		if os.Getenv("H2A_DEBUG") != "" {
+			fmt.Printf("INCONCLUSIVE %s\n  %s\n", inconclusive, strings.Join(c.trace, "\n  "))
+			r.locked(func() {
+				for _, s := range c.streams {
+					fmt.Printf("  stream %d total=%d recv=%d credits=%d ended=%v clientReset=%v srvRST=%v maybeNeg=%v\n", s.id, s.total, s.recv, s.credits, s.ended, s.clientReset, s.srvRST, s.maybeNeg)
+				}
+			})
+		}
 	}
 	var cl []string
 	r.locked(func() {
